@@ -31,6 +31,8 @@ SCENARIOS = {
     "S-BL-all": [[("c0", "CON", "A"), ("c1", "CON", "A"), ("c2", "CON", "B"), ("n3", "NON", "A"), ("c4", "CON", "A")]],
     "S-BL-split": [[("c0", "CON", "A"), ("c1", "CON", "A")], [("c2", "CON", "A"), ("n3", "NON", "A")]],
     "S-BL-three": [[("c0", "CON", "A"), ("c1", "CON", "A"), ("c2", "CON", "A")], [("c3", "CON", "B")]],
+    # the other endpoint's exchange ends first while a message for A is held back behind A's open exchange
+    "S-BL-cross": [[("c0", "CON", "B"), ("c1", "CON", "A"), ("c2", "CON", "A")]],
     # server role: the node's own separate CON response to A competes with its client requests to A
     "S-BL-server": [[("c0", "CON", "A")], "A-requests-slow", [("c1", "CON", "A")]],
 }
